@@ -5,6 +5,7 @@ corresponding declarative rule applies; the mutual inductions over expressions /
 -/
 namespace TruthModel.C09
 open TruthModel TruthModel.Types
+set_option linter.unusedSimpArgs false
 
 theorem bind_eq_ok {α β} (x : Outcome α) (f : α → Outcome β) (b : β) :
     (x >>= f) = .ok b ↔ ∃ a, x = .ok a ∧ f a = .ok b := by
@@ -51,6 +52,11 @@ theorem unopTyWith_iff (op : UnOp) (a t' : Ty) (h : ∃ u, UnopTy op a u) :
     unopTyWith op (fun _ => .ok a) = .ok t' ↔ UnopTy op a t' := by
   cases op <;> cases a <;> cases t' <;> simp_all [unopTyWith, UnopTy, Numeric]
 
+theorem checkAssignable_ok_iff (Γ : Ctx) (v : VarRef) :
+    checkAssignable Γ v = .ok () ↔ Assignable Γ v := by
+  unfold checkAssignable Assignable
+  cases v.isReg <;> cases Γ.isConst v.id <;> simp
+
 theorem requireExact_ok_iff' (t u : Ty) : requireExact t u = .ok () ↔ t = u := by
   unfold requireExact; split <;> simp_all
 
@@ -89,6 +95,15 @@ theorem mem_subsE_self : (e : TExpr) → e ∈ subsE e
   | .litI _ | .litF _ | .litS _ | .reg _ _ | .var _ _ | .unop _ _ | .binop _ _ _ | .ternary _ _ _
   | .call _ _ | .diffSwitch _ _ | .xcrement _ _ _ | .enumConst _ _ | .labelProp _ | .callx _ _ _ _ => by
     simp [subsE]
+
+/-- `check_expr` can only accept a write to a constant through `++` / `--`, and only while it does
+not look at the operand's assignability: either it does (switch on, the code since e098828), or no
+`++` / `--` among the expressions `L` has a constant operand -/
+def XOk (Γ : Ctx) (L : List TExpr) : Prop :=
+  checksXcrementTarget = true ∨ ∀ pre inc v, .xcrement pre inc v ∈ L → Assignable Γ v
+
+theorem XOk.mono {Γ : Ctx} {L L' : List TExpr} (h : XOk Γ L) (hs : ∀ y, y ∈ L' → y ∈ L) : XOk Γ L' :=
+  h.imp id (fun hn pre inc v hm => hn pre inc v (hs _ hm))
 
 /-- `compute_ty` and `check_expr` can only disagree at a qualified constant of a string enum:
 either `compute_ty` asks `enum_ty` (switch off), or no such constant occurs in `e` -/
@@ -203,8 +218,7 @@ theorem computeTy_of_check_gen (Γ : Ctx) : (e : TExpr) → (t : ETy) → check 
     simp only [check] at h
     split at h
     · split at h
-      · rename_i tv hv
-        split at h
+      · split at h
         · rename_i hi
           cases h
           rw [requireExact_ok_iff'] at hi
@@ -287,29 +301,29 @@ theorem calleeSig_trailing (Γ : Ctx) (hΓ : SigsOk Γ) (user : Bool) (f : Nat) 
 
 mutual
 theorem check_sound_aux (Γ : Ctx) (hΓ : SigsOk Γ) : (e : TExpr) → (t : ETy) → check Γ e = .ok t →
-    HasType Γ e t
-  | .litI v, t, h => by
+    XOk Γ (subsE e) → HasType Γ e t
+  | .litI v, t, h, _ => by
     simp only [check] at h; cases h; exact .litI v
-  | .litF v, t, h => by
+  | .litF v, t, h, _ => by
     simp only [check] at h; cases h; exact .litF v
-  | .litS v, t, h => by
+  | .litS v, t, h, _ => by
     simp only [check] at h; cases h; exact .litS v
-  | .reg r sig, t, h => by
+  | .reg r sig, t, h, _hX => by
     simp only [check] at h
     split at h <;> cases h
     rename_i u hu
     exact .reg ((checkVar_ok_iff _ _ _).mp hu)
-  | .var n sig, t, h => by
+  | .var n sig, t, h, _hX => by
     simp only [check] at h
     split at h <;> cases h
     rename_i u hu
     exact .var ((checkVar_ok_iff _ _ _).mp hu)
-  | .unop op x, t, h => by
+  | .unop op x, t, h, hX => by
     simp only [check] at h
     split at h
     · rename_i tx hx
       rw [checkValue_ok] at hx
-      have htx := check_sound_aux Γ hΓ x _ hx
+      have htx := check_sound_aux Γ hΓ x _ hx (hX.mono (by intro y hy; simp [subsE, subsA, subsC, subsP, hy]))
       split at h
       · rename_i hu
         rw [unopTyWith_computeTy Γ op x tx hu
@@ -323,16 +337,16 @@ theorem check_sound_aux (Γ : Ctx) (hΓ : SigsOk Γ) : (e : TExpr) → (t : ETy)
       · cases h
     · cases h
     · cases h
-  | .binop op a b, t, h => by
+  | .binop op a b, t, h, hX => by
     simp only [check] at h
     split at h
     · rename_i ta ha
       rw [checkValue_ok] at ha
-      have hta := check_sound_aux Γ hΓ a _ ha
+      have hta := check_sound_aux Γ hΓ a _ ha (hX.mono (by intro y hy; simp [subsE, subsA, subsC, subsP, hy]))
       split at h
       · rename_i tb hb
         rw [checkValue_ok] at hb
-        have htb := check_sound_aux Γ hΓ b _ hb
+        have htb := check_sound_aux Γ hΓ b _ hb (hX.mono (by intro y hy; simp [subsE, subsA, subsC, subsP, hy]))
         split at h
         · rename_i hu
           rw [binopTyWith_computeTy Γ op a ta tb hu
@@ -350,20 +364,20 @@ theorem check_sound_aux (Γ : Ctx) (hΓ : SigsOk Γ) : (e : TExpr) → (t : ETy)
       · cases h
     · cases h
     · cases h
-  | .ternary c l r, t, h => by
+  | .ternary c l r, t, h, hX => by
     simp only [check] at h
     split at h
     · rename_i tl hl
       rw [checkValue_ok] at hl
-      have htl := check_sound_aux Γ hΓ l _ hl
+      have htl := check_sound_aux Γ hΓ l _ hl (hX.mono (by intro y hy; simp [subsE, subsA, subsC, subsP, hy]))
       split at h
       · rename_i tr hr
         rw [checkValue_ok] at hr
-        have htr := check_sound_aux Γ hΓ r _ hr
+        have htr := check_sound_aux Γ hΓ r _ hr (hX.mono (by intro y hy; simp [subsE, subsA, subsC, subsP, hy]))
         split at h
         · rename_i tc hc
           rw [checkValue_ok] at hc
-          have htc := check_sound_aux Γ hΓ c _ hc
+          have htc := check_sound_aux Γ hΓ c _ hc (hX.mono (by intro y hy; simp [subsE, subsA, subsC, subsP, hy]))
           split at h
           · rename_i hi
             split at h
@@ -385,7 +399,7 @@ theorem check_sound_aux (Γ : Ctx) (hΓ : SigsOk Γ) : (e : TExpr) → (t : ETy)
       · cases h
     · cases h
     · cases h
-  | .call f args, t, h => by
+  | .call f args, t, h, hX => by
     simp only [check] at h
     split at h
     · cases h
@@ -395,48 +409,53 @@ theorem check_sound_aux (Γ : Ctx) (hΓ : SigsOk Γ) : (e : TExpr) → (t : ETy)
         split at h <;> cases h
         rename_i hargs
         have hl : args.length = minArgs ps := by simp only [maxArgs] at hlen; omega
-        exact .call hps (checkArgs_sound_aux Γ hΓ args ps (hΓ f ps hps) hl hargs)
+        exact .call hps (checkArgs_sound_aux Γ hΓ args ps (hΓ f ps hps) hl hargs (hX.mono (by intro y hy; simp [subsE, subsA, subsC, subsP, hy])))
       · cases h
-  | .diffSwitch first rest, t, h => by
+  | .diffSwitch first rest, t, h, hX => by
     simp only [check] at h
     split at h
     · rename_i tf hf
       rw [checkValue_ok] at hf
-      have htf := check_sound_aux Γ hΓ first _ hf
+      have htf := check_sound_aux Γ hΓ first _ hf (hX.mono (by intro y hy; simp [subsE, subsA, subsC, subsP, hy]))
       split at h
       · rename_i hc
         cases h
-        exact .diffSwitch htf (checkCases_sound_aux Γ hΓ tf rest hc)
+        exact .diffSwitch htf (checkCases_sound_aux Γ hΓ tf rest hc (hX.mono (by intro y hy; simp [subsE, subsA, subsC, subsP, hy])))
       · cases h
       · cases h
     · cases h
     · cases h
-  | .xcrement pre inc v, t, h => by
+  | .xcrement pre inc v, t, h, hX => by
     simp only [check] at h
     split at h
-    · split at h
-      · rename_i tv hv
+    · rename_i tv hv
+      split at h
+      · rename_i ha
         split at h
         · rename_i hi
           cases h
           rw [requireExact_ok_iff'] at hi
           subst hi
-          exact .xcrement ((checkVar_ok_iff _ _ _).mp hv)
+          refine .xcrement ((checkVar_ok_iff _ _ _).mp hv) ?_
+          rcases hX with hX | hX
+          · simp only [hX, if_true] at ha
+            exact (checkAssignable_ok_iff Γ v).mp ha
+          · exact hX pre inc v (by simp [subsE])
         · cases h
         · cases h
       · cases h
       · cases h
     · cases h
     · cases h
-  | .enumConst en n, t, h => by
+  | .enumConst en n, t, h, _ => by
     simp only [check] at h; cases h; exact .enumConst en n
-  | .labelProp l, t, h => by
+  | .labelProp l, t, h, _ => by
     simp only [check] at h; cases h; exact .labelProp l
-  | .callx user f pseudos args, t, h => by
+  | .callx user f pseudos args, t, h, hX => by
     simp only [check] at h
     split at h
     · rename_i hps
-      have hpt := checkPseudos_sound_aux Γ hΓ pseudos hps
+      have hpt := checkPseudos_sound_aux Γ hΓ pseudos hps (hX.mono (by intro y hy; simp [subsE, subsA, subsC, subsP, hy]))
       split at h
       · cases h
       · rename_i hnu
@@ -467,7 +486,7 @@ theorem check_sound_aux (Γ : Ctx) (hΓ : SigsOk Γ) : (e : TExpr) → (t : ETy)
               rename_i hargs
               have hl : args.length = minArgs ps := by simp only [maxArgs] at hlen; omega
               have hat := checkArgs_sound_aux Γ hΓ args ps
-                (calleeSig_trailing Γ hΓ user f ps _ hsig) hl hargs
+                (calleeSig_trailing Γ hΓ user f ps _ hsig) hl hargs (hX.mono (by intro y hy; simp [subsE, subsA, subsC, subsP, hy]))
               cases user with
               | false =>
                 unfold Ctx.calleeSig at hsig
@@ -494,14 +513,14 @@ theorem check_sound_aux (Γ : Ctx) (hΓ : SigsOk Γ) : (e : TExpr) → (t : ETy)
     · cases h
 theorem checkArgs_sound_aux (Γ : Ctx) (hΓ : SigsOk Γ) : (as : TArgs) → (ps : List Param) →
     trailingOptional ps = true → as.length = minArgs ps → checkArgs Γ as ps = .ok () →
-    ArgsTyped Γ as (required ps)
-  | .nil, ps, _, hl, _ => by
+    XOk Γ (subsA as) → ArgsTyped Γ as (required ps)
+  | .nil, ps, _, hl, _, _ => by
     simp only [TArgs.length] at hl
     rw [required_of_minArgs_zero ps hl.symm]
     exact .nil
-  | .cons a as, [], _, hl, _ => by
+  | .cons a as, [], _, hl, _, _ => by
     simp [TArgs.length, minArgs] at hl
-  | .cons a as, p :: ps, htr, hl, h => by
+  | .cons a as, p :: ps, htr, hl, h, hX => by
     by_cases hp : p.optional
     · simp only [trailingOptional, hp, if_true] at htr
       simp [TArgs.length, minArgs, hp, minArgs_all_optional ps htr] at hl
@@ -511,51 +530,51 @@ theorem checkArgs_sound_aux (Γ : Ctx) (hΓ : SigsOk Γ) : (as : TArgs) → (ps 
       split at h
       · rename_i t ha
         rw [checkValue_ok] at ha
-        have hta := check_sound_aux Γ hΓ a _ ha
+        have hta := check_sound_aux Γ hΓ a _ ha (hX.mono (by intro y hy; simp [subsE, subsA, subsC, subsP, hy]))
         split at h
         · rename_i hpc
           rw [paramCheck_ok_iff] at hpc
           simp only [required, hp]
-          exact .cons hta hpc (checkArgs_sound_aux Γ hΓ as ps (by simpa using htr) (by simp at hl; omega) h)
+          exact .cons hta hpc (checkArgs_sound_aux Γ hΓ as ps (by simpa using htr) (by simp at hl; omega) h (hX.mono (by intro y hy; simp [subsE, subsA, subsC, subsP, hy])))
         · cases h
         · cases h
       · cases h
       · cases h
 theorem checkCases_sound_aux (Γ : Ctx) (hΓ : SigsOk Γ) (t : Ty) : (cs : TCases) →
-    checkCases Γ t cs = .ok () → CasesTyped Γ t cs
-  | .nil, _ => .nil
-  | .blank cs, h => by
+    checkCases Γ t cs = .ok () → XOk Γ (subsC cs) → CasesTyped Γ t cs
+  | .nil, _, _ => .nil
+  | .blank cs, h, hX => by
     simp only [checkCases] at h
-    exact .blank (checkCases_sound_aux Γ hΓ t cs h)
-  | .case e cs, h => by
+    exact .blank (checkCases_sound_aux Γ hΓ t cs h (hX.mono (by intro y hy; simp [subsE, subsA, subsC, subsP, hy])))
+  | .case e cs, h, hX => by
     simp only [checkCases] at h
     split at h
     · rename_i t' he
       rw [checkValue_ok] at he
-      have hte := check_sound_aux Γ hΓ e _ he
+      have hte := check_sound_aux Γ hΓ e _ he (hX.mono (by intro y hy; simp [subsE, subsA, subsC, subsP, hy]))
       split at h
       · rename_i u hs
         simp only [requireSame] at hs
         split at hs <;> cases hs
         subst_vars
-        exact .case hte (checkCases_sound_aux Γ hΓ _ cs h)
+        exact .case hte (checkCases_sound_aux Γ hΓ _ cs h (hX.mono (by intro y hy; simp [subsE, subsA, subsC, subsP, hy])))
       · cases h
       · cases h
     · cases h
     · cases h
 theorem checkPseudos_sound_aux (Γ : Ctx) (hΓ : SigsOk Γ) : (ps : TPseudos) →
-    checkPseudos Γ ps = .ok () → PseudosTyped Γ ps
-  | .nil, _ => .nil
-  | .cons k e ps, h => by
+    checkPseudos Γ ps = .ok () → XOk Γ (subsP ps) → PseudosTyped Γ ps
+  | .nil, _, _ => .nil
+  | .cons k e ps, h, hX => by
     simp only [checkPseudos] at h
     split at h
     · rename_i t he
       rw [checkValue_ok] at he
-      have hte := check_sound_aux Γ hΓ e _ he
+      have hte := check_sound_aux Γ hΓ e _ he (hX.mono (by intro y hy; simp [subsE, subsA, subsC, subsP, hy]))
       split at h
       · rename_i hk
         rw [pseudoCheck_ok_iff] at hk
-        exact .cons hte hk (checkPseudos_sound_aux Γ hΓ ps h)
+        exact .cons hte hk (checkPseudos_sound_aux Γ hΓ ps h (hX.mono (by intro y hy; simp [subsE, subsA, subsC, subsP, hy])))
       · cases h
       · cases h
     · cases h
@@ -619,11 +638,11 @@ theorem check_complete_aux (Γ : Ctx) (hΓ : SigsOk Γ) : (e : TExpr) → (t : E
       simp [check, (checkValue_ok _ _ _).mpr cf, cr]
   | .xcrement pre inc v, t, h => by
     cases h with
-    | xcrement hr =>
-      -- `rfl`: the switch is off in Model/Types.lean (the code as it is does not look at the
-      -- operand's assignability; once it does, completeness needs `WritesOk Γ e` as a hypothesis)
-      have : checksXcrementTarget = false := rfl
-      simp [check, this, (checkVar_ok_iff _ _ _).mpr hr, requireExact]
+    | xcrement hr ha =>
+      -- for every setting of the switch: an assignable operand passes `check_var_is_assignable`
+      have hca := (checkAssignable_ok_iff Γ v).mpr ha
+      cases hsw : checksXcrementTarget <;>
+        simp [check, hsw, hca, (checkVar_ok_iff _ _ _).mpr hr, requireExact]
   | .enumConst en n, t, h => by cases h; rfl
   | .labelProp l, t, h => by cases h; rfl
   | .callx user f pseudos args, t, h => by
@@ -691,7 +710,8 @@ end
 
 theorem check_iff (Γ : Ctx) (hΓ : SigsOk Γ) (e : TExpr) (t : ETy) :
     check Γ e = .ok t ↔ HasType Γ e t :=
-  ⟨check_sound_aux Γ hΓ e t, check_complete_aux Γ hΓ e t⟩
+  -- `rfl`: `checksXcrementTarget` is on in Model/Types.lean (e098828)
+  ⟨fun h => check_sound_aux Γ hΓ e t h (Or.inl rfl), check_complete_aux Γ hΓ e t⟩
 
 theorem andThen_ok_iff (a b : Outcome Unit) :
     a.andThen b = .ok () ↔ a = .ok () ∧ b = .ok () := by
@@ -734,11 +754,6 @@ theorem checkExprStmt_ok_iff (Γ : Ctx) (hΓ : SigsOk Γ) (e : TExpr) :
   · intro h
     rw [← check_iff Γ hΓ] at h
     simp [h, requireVoid]
-
-theorem checkAssignable_ok_iff (Γ : Ctx) (v : VarRef) :
-    checkAssignable Γ v = .ok () ↔ Assignable Γ v := by
-  unfold checkAssignable Assignable
-  cases v.isReg <;> cases Γ.isConst v.id <;> simp
 
 theorem checkAssignable_cases (Γ : Ctx) (v : VarRef) :
     checkAssignable Γ v = .ok () ∨ checkAssignable Γ v = .err constAssignErr := by
@@ -1203,7 +1218,7 @@ theorem preservationT_aux (F : FloatOps) (Γ : Ctx) (cs : Consts) (env : Env) (h
         (preservationT_aux F Γ cs env hE x hX first t hf)
   | .xcrement pre inc v, t, h => by
     cases h with
-    | xcrement hr =>
+    | xcrement hr _ =>
       -- reading the operand gives an int
       have hread : ValOk .int (if v.isReg then Outcome.ok (env.reg v.id v.sig) else
             match cs v.id with
@@ -1463,12 +1478,12 @@ theorem check_ne_panic (Γ : Ctx) : (e : TExpr) → (s : String) → check Γ e 
           split at hs' <;> cases hs'
       · cases h
       · rename_i s' hs'
-        exact checkVar_ne_panic _ _ _ hs'
+        split at hs'
+        · exact checkAssignable_ne_panic Γ v s' hs'
+        · cases hs'
     · cases h
     · rename_i s' hs'
-      split at hs'
-      · exact checkAssignable_ne_panic Γ v s' hs'
-      · cases hs'
+      exact checkVar_ne_panic _ _ _ hs'
   | .enumConst en n, s => by simp [check]
   | .labelProp l, s => by simp [check]
   | .callx user f pseudos args, s => by
